@@ -111,8 +111,8 @@ ChunkingsOf(sh) == NDChunkings(sh) \cup ZeroChunkings(sh)
      array holds the same value at p and p + 1 - a run of equal values that a chunk border after
      position p cuts in two; the harness always runs the case under every chunking that has such a
      border, for side left and right (both are cases of their own);
-   - digitize over bins that decrease somewhere: always run (every chunking in the thorough tier),
-     for right = FALSE and TRUE.                                                                 *)
+   - digitize over bins that decrease somewhere: always run (under chunkings the harness rotates
+     through), for right = FALSE and TRUE.                                                       *)
 RunBorders(c) == LET a == SortSeq(c.cells, Le) IN {p \in 1..(Len(a) - 1) : a[p] = a[p + 1] /\ a[p] # NaN}
 Must(c) == IF c.op = "searchsorted" /\ c.vshape = <<6>> THEN SetToSeq(RunBorders(c))
            ELSE IF c.op = "digitize" /\ Decreasing(c.bins) /\ ~Increasing(c.bins) THEN <<1>>
